@@ -133,6 +133,19 @@ def run_case(case):
                 exc = e
             oc, viol = _check(got, exc, ref, {"obj": s, "max": mx})
             out.append((oc, nt, (oc, None if got is None else round(got, 9)), viol))
+    # the zero objective: its optimum over a non-empty set is 0
+    from pacti.iocontract import Var
+
+    for name, f in (("string '0 i'", lambda mx: c.optimize("0 i", maximize=mx)), ("termlist {}", lambda mx: (c.a | c.g).optimize({}, maximize=mx)),
+                    ("termlist {o: 0}", lambda mx: (c.a | c.g).optimize({Var("o"): 0.0}, maximize=mx))):
+        for mx in (True, False):
+            got = exc = None
+            try:
+                got = f(mx)
+            except Exception as e:  # noqa
+                exc = e
+            oc, viol = _check(got, exc, ("opt", F(0)) if feas else ("infeasible", None), {"obj": "zero objective via " + name, "max": mx})
+            out.append((oc, nt, None, viol))
     for v in ["i", "o", "p"]:
         lo = O.opt(terms, {v: 1}, maximize=False)
         hi = O.opt(terms, {v: 1}, maximize=True)
